@@ -88,6 +88,29 @@ Definition wf (b : sbuf) : Prop :=
   Forall (fun e => 0 < length (snd e)) (bufs b) /\
   bsize b = length (abs b).
 
+(* operation sequences on the buffer, and the plain byte queue they should implement *)
+Inductive qop := QAppend (d : list N) | QAdvance (n : nat).
+
+Fixpoint q_impl (thr : nat) (ops : list qop) (b : sbuf) : option sbuf :=
+  match ops with
+  | [] => Some b
+  | QAppend d :: ops' => q_impl thr ops' (append thr d b)
+  | QAdvance n :: ops' =>
+      match advance n b with
+      | AdvOk b' => q_impl thr ops' b'
+      | AdvPre => q_impl thr ops' b          (* AssertionError, nothing changed *)
+      | AdvPost => None                      (* AssertionError after mutation *)
+      end
+  end.
+
+Fixpoint q_ref (ops : list qop) (r : list N) : list N :=
+  match ops with
+  | [] => r
+  | QAppend d :: ops' => q_ref ops' (r ++ d)
+  | QAdvance n :: ops' =>
+      q_ref ops' (if (0 <? n) && (n <=? length r) then skipn n r else r)
+  end.
+
 (* ------------------------------------------------------------------ *)
 (* the stream                                                          *)
 (* ------------------------------------------------------------------ *)
@@ -111,6 +134,9 @@ Inductive event :=
 | EResolve (id : nat)             (* future #id resolved with None *)
 | EFail (id : nat)                (* future #id failed with StreamClosedError *)
 | EReady (delivered : bool)       (* WRITE event; delivered iff listening *)
+| EConnect                        (* stream.connect() was called: the connection is pending *)
+| EConnected                      (* _handle_connect succeeded: connect future resolved *)
+| EConnFail                       (* connect future failed with StreamClosedError *)
 | EClose
 | ECrash                          (* AssertionError escaped *)
 | EFuel                           (* model ran out of fuel (never happens) *)
@@ -129,31 +155,40 @@ Record stream := mkst {
   listening : bool;             (* _state & WRITE *)
   script : list sstep;          (* transport behaviour; empty = accept all *)
   dead : bool;                  (* an assertion escaped / fuel ran out *)
+  connecting : bool;            (* _connecting (and _connect_future pending) *)
+  conn_ok : bool;               (* what SO_ERROR will report in _handle_connect: true = 0 *)
   tr : list event               (* trace, newest first *)
 }.
 
+(* an already connected stream *)
 Definition init (t : nat) (m : option nat) (sc : list sstep) : stream :=
-  mkst t m empty_buf 0 0 [] 0 false false sc false [].
+  mkst t m empty_buf 0 0 [] 0 false false sc false false true [].
+(* IOStream.connect() was called first: _connecting, connect future pending, WRITE registered *)
+Definition init_connecting (ok : bool) (t : nat) (m : option nat) (sc : list sstep) : stream :=
+  mkst t m empty_buf 0 0 [] 0 false true sc false true ok [EConnect].
+Definition init_with (conn : option bool) (t : nat) (m : option nat) (sc : list sstep) : stream :=
+  match conn with None => init t m sc | Some ok => init_connecting ok t m sc end.
 
 Definition emit (e : event) (s : stream) : stream :=
   mkst (thr s) (maxb s) (wb s) (twi s) (twd s) (wfut s) (nfut s) (closed s)
-       (listening s) (script s) (dead s) (e :: tr s).
+       (listening s) (script s) (dead s) (connecting s) (conn_ok s) (e :: tr s).
 Definition set_listening (b : bool) (s : stream) : stream :=
   mkst (thr s) (maxb s) (wb s) (twi s) (twd s) (wfut s) (nfut s) (closed s)
-       b (script s) (dead s) (tr s).
+       b (script s) (dead s) (connecting s) (conn_ok s) (tr s).
 Definition set_dead (s : stream) : stream :=
   mkst (thr s) (maxb s) (wb s) (twi s) (twd s) (wfut s) (nfut s) (closed s)
-       (listening s) (script s) true (tr s).
+       (listening s) (script s) true (connecting s) (conn_ok s) (tr s).
 Definition set_script (sc : list sstep) (s : stream) : stream :=
   mkst (thr s) (maxb s) (wb s) (twi s) (twd s) (wfut s) (nfut s) (closed s)
-       (listening s) sc (dead s) (tr s).
+       (listening s) sc (dead s) (connecting s) (conn_ok s) (tr s).
 
 (* close(): fail every outstanding write future in queue order, drop the buffer *)
 Definition close_stream (s : stream) : stream :=
   if closed s then s
   else mkst (thr s) (maxb s) empty_buf (twi s) (twd s) [] (nfut s) true false
-            (script s) (dead s)
-            (rev (map (fun p => EFail (snd p)) (wfut s)) ++ tr s).
+            (script s) (dead s) false (conn_ok s)
+            ((if connecting s then [EConnFail] else []) ++
+             rev (map (fun p => EFail (snd p)) (wfut s)) ++ tr s).
 
 (* the second loop of _handle_write *)
 Fixpoint resolve_loop (q : list (nat * nat)) (done : nat) (t : list event)
@@ -166,7 +201,7 @@ Fixpoint resolve_loop (q : list (nat * nat)) (done : nat) (t : list event)
 Definition resolve (s : stream) : stream :=
   let '(q, t) := resolve_loop (wfut s) (twd s) (tr s) in
   mkst (thr s) (maxb s) (wb s) (twi s) (twd s) q (nfut s) (closed s)
-       (listening s) (script s) (dead s) t.
+       (listening s) (script s) (dead s) (connecting s) (conn_ok s) t.
 
 Inductive loop_result :=
 | LBreak (s : stream)      (* left the send loop normally *)
@@ -197,7 +232,7 @@ Fixpoint send_loop (fuel : nat) (s : stream) : loop_result :=
                  | AdvOk b' =>
                      send_loop f (mkst (thr s1) (maxb s1) b' (twi s1) (twd s1 + n)
                                        (wfut s1) (nfut s1) (closed s1) (listening s1)
-                                       (script s1) (dead s1) (tr s1))
+                                       (script s1) (dead s1) (connecting s1) (conn_ok s1) (tr s1))
                  | _ => LDead (set_dead (emit ECrash s1))
                  end
         end
@@ -224,16 +259,29 @@ Definition do_write (d : list N) (s : stream) : stream :=
                    (if 0 <? length d then append (thr s) d (wb s) else wb s)
                    (twi s + length d) (twd s)
                    (wfut s ++ [(twi s + length d, nfut s)]) (S (nfut s))
-                   (closed s) (listening s) (script s) (dead s)
+                   (closed s) (listening s) (script s) (dead s) (connecting s) (conn_ok s)
                    (EWrite (nfut s) d :: tr s) in
+    (* while the connection is pending the data is only queued *)
+    if connecting s then s1 else
     let s2 := handle_write s1 in
     if dead s2 || closed s2 then s2
     else set_listening (listening s2 || (0 <? bsize (wb s2))) s2.
 
+(* _handle_events: if self._connecting: self._handle_connect() *)
+Definition handle_connect (s : stream) : stream :=
+  if connecting s then
+    if conn_ok s then
+      mkst (thr s) (maxb s) (wb s) (twi s) (twd s) (wfut s) (nfut s) (closed s)
+           (listening s) (script s) (dead s) false (conn_ok s) (EConnected :: tr s)
+    else close_stream s
+  else s.
+
 Definition do_ready (s : stream) : stream :=
   if closed s || negb (listening s) then emit (EReady false) s
   else
-    let s2 := handle_write (emit (EReady true) s) in
+    let s1 := handle_connect (emit (EReady true) s) in
+    if closed s1 then s1 else
+    let s2 := handle_write s1 in
     if dead s2 || closed s2 then s2
     else set_listening (0 <? bsize (wb s2)) s2.
 
@@ -310,6 +358,7 @@ Fixpoint last_snap (t : list event) : event :=
   | [] => ESnap 0 0 0 false 0 []
   | ESnap a b c d e f :: _ => ESnap a b c d e f
   | ESnapClosed :: _ => ESnapClosed
+  | EConnect :: _ => ESnap 0 0 0 true 0 []     (* connect() registered WRITE *)
   | _ :: t' => last_snap t'
   end.
 Fixpoint shape_eqb (a b : list (bool * nat)) : bool :=
@@ -334,24 +383,38 @@ Definition refusal_clean (snap : event) (past : list event) : bool :=
   | _ => true
   end.
 
+(* is a connection attempt still pending? *)
+Fixpoint connecting_tr (t : list event) : bool :=
+  match t with
+  | [] => false
+  | EConnect :: _ => true
+  | EConnected :: _ => false
+  | EConnFail :: _ => false
+  | _ :: t' => connecting_tr t'
+  end.
+
 Definition event_ok (e : event) (past : list event) : bool :=
   match e with
   | EWrite id _ => id =? count_writes past
       (* futures are numbered in write order *)
   | ESend offered d =>
-      (length d <=? offered) &&
+      (length d <=? offered) && negb (connecting_tr past) &&
       is_prefixb (sent_of past ++ d) (written_of past)
-      (* the transport is handed exactly the next unsent bytes *)
+      (* the transport is handed exactly the next unsent bytes, never before the connection is up *)
   | EResolve id =>
       match written_through id past with
       | Some w => is_prefixb w (sent_of past)   (* its bytes and all earlier ones are out *)
       | None => false
       end
+      && negb (connecting_tr past)                (* never before the connection is up *)
       && match pending_ids past with
          | oldest :: _ => oldest =? id          (* resolved in write order *)
          | [] => false
          end
   | EFail id => existsb (Nat.eqb id) (pending_ids past)
+  | EConnect => match past with [] => true | _ => false end
+  | EConnected => connecting_tr past
+  | EConnFail => connecting_tr past
   | ECrash | EFuel => false
   | ESnap sz i dn _ _ _ =>
       (i =? length (written_of past)) && (dn =? length (sent_of past)) && (sz + dn =? i)
